@@ -77,7 +77,15 @@ func (e *Engine) verifyFunction(fc *FuncContract) *FuncResult {
 	for _, a := range e.cs.Lemmas {
 		if a.Axiom {
 			c := &Clause{Kind: "axiom", Src: a.Src, E: a.E, File: a.File, Line: a.Line}
-			st.assume(vf.evalClauseIn(st, c, map[string]*Val{}, nil, a.PkgPath))
+			t := vf.evalClauseIn(st, c, map[string]*Val{}, nil, a.PkgPath)
+			n0 := len(st.assumes)
+			st.assume(t)
+			if len(st.assumes) > n0 {
+				if st.isAxiom == nil {
+					st.isAxiom = map[int]bool{}
+				}
+				st.isAxiom[len(st.assumes)-1] = true
+			}
 		}
 	}
 	for _, c := range fc.Requires {
